@@ -88,6 +88,9 @@ CLAIMED['C24'] = ("the real ResourcePool (capacity 1, maximum 2..3, dynamic scal
 CLAIMED['C05'] = ("UPDATE / DELETE statements parsed by the real parser, given a WHERE tree from the C01 grammar with symbolic literals and planned by the real BuildPlan on a range rule: every generated statement targets a sub table, no sub table gets the statement twice, the table holding any row (symbolic key) that satisfies the condition gets the statement, and the real MergeExecResult reports the sum of the (symbolic) per-shard affected-row counts; 21 UPDATE / INSERT ... ON DUPLICATE KEY UPDATE texts assigning (or not) the sharding column in qualified, aliased, quoted and upper-case spellings are rejected (accepted)",
     "the per-table execution against stored rows is not modelled (the proxy sends the unchanged condition to each routed table, so 'exactly the matching rows' reduces to routing + once-per-table + sum); hash/mod/date rules are covered for routing by C01 only; LIMIT is excluded by the property; the assignment texts are a fixed list, not symbolic")
 
+CLAIMED['C06'] = ("for 880 statement texts (22 templates x tables sh/lk/gl/un x five spellings of the name x session with/without a current database) the real SessionExecutor.preBuildUnshardPlan never answers 'unsharded' for a statement that the proxy's own full analysis (real parser + plan.Checker over the real router) finds to involve a table with a shard rule",
+    "the texts are enumerated by the engine as path decisions, there is no symbolic byte in them (the tokenizer works on Go strings through strings.FieldsFunc / ToLower, which the engine runs on concrete text only), so no SMT query is discharged: within this bound the check is an exhaustive run of the real code over the template language; texts outside the templates (deeper nesting, other keywords, multi-statement texts) are outside the bound")
+
 NA_REASON = "check not built yet (work in progress; see DESIGN.md section 3 for the planned harness)"
 NA = {}
 
